@@ -669,8 +669,12 @@ class FmtStr:
                 ):
                     parts.append(chunk)
                 else:
+                    # (the start is not clipped to 0: for a chunk that begins inside
+                    # the slice it is negative, so that zero-width characters opening
+                    # the chunk - they combine with a cell that is part of the slice -
+                    # are kept; only those sitting on the slice's own start are dropped)
                     s_part = width_aware_slice(
-                        chunk.s, max(0, index.start - counter), index.stop - counter
+                        chunk.s, index.start - counter, index.stop - counter
                     )
                     parts.append(Chunk(s_part, chunk.atts))
             counter += chunk.width
